@@ -457,30 +457,51 @@ func ruleFMT6(c *Ctx) {
 		c.anchor("reference package fmt: " + err.Error())
 		return
 	}
-	for _, fn := range sortedKeys(fmtNearPorts) {
-		tab := fmtNearPorts[fn]
-		rn := fmtRefName(fn)
+	checkNearPorts(c, p, ref, "fmt", fmtNearPorts, fmtSubst, fmtRefName, fmtHelpers(w, p, ref), []string{"ErrStringLimit", "MaxStringLen"})
+}
+
+type nearPort struct {
+	tengo, ref []string
+	why        string
+}
+
+// checkNearPorts compares each tabled function with the reference function it
+// ports, statement by statement (flattened, alpha-normalised, longest common
+// subsequence). A statement without counterpart must be one of the port's own
+// guards (a source substring from portGuards) or match a tabled marker.
+func checkNearPorts(c *Ctx, p, ref pkgT, refPkg string, table map[string]struct {
+	tengo, ref []string
+	why        string
+}, subst map[string]string, refName func(string) string, helpers helperLookup, portGuards []string) {
+	w := c.W
+	for _, fn := range sortedKeys(table) {
+		tab := table[fn]
+		rn := refName(fn)
 		mf, rf := w.FuncDecl(p, fn), w.FuncDecl(ref, rn)
 		if mf == nil || rf == nil {
-			c.fail("near-port/"+fn, mf, "ported function missing in tengo or in the reference fmt")
+			c.fail("near-port/"+fn, mf, "ported function missing here or in the reference package "+refPkg)
 			continue
 		}
-		oa, ob := lcsDiff(flattenBody(p, mf, fmtSubst, fmtHelpers(w, p, ref)), flattenBody(ref, rf, fmtSubst))
+		var hs []helperLookup
+		if helpers != nil {
+			hs = append(hs, helpers)
+		}
+		oa, ob := lcsDiff(flattenBody(p, mf, subst, hs...), flattenBody(ref, rf, subst))
 		var probs []string
 		for _, s := range oa {
 			if strings.HasPrefix(s.Text, "end-") || s.Text == "else" {
 				continue // structure markers follow their header
 			}
 			src := w.Src(s.Node)
-			if strings.Contains(src, "ErrStringLimit") || strings.Contains(src, "MaxStringLen") {
-				continue
-			}
 			ok := false
+			for _, g := range portGuards {
+				ok = ok || strings.Contains(src, g)
+			}
 			for _, m := range tab.tengo {
 				ok = ok || strings.Contains(src, m)
 			}
 			if !ok {
-				probs = append(probs, fmt.Sprintf("tengo-only statement `%.80s` (%s)", src, w.Site(s.Node)))
+				probs = append(probs, fmt.Sprintf("statement without counterpart `%.80s` (%s)", src, w.Site(s.Node)))
 			}
 		}
 		for _, s := range ob {
@@ -496,10 +517,15 @@ func ruleFMT6(c *Ctx) {
 				}
 			}
 			if !ok {
-				probs = append(probs, fmt.Sprintf("statement of fmt's %s without counterpart: `%.80s`", rn, ref.Fset.Position(s.Node.Pos()).String()[strings.LastIndex(ref.Fset.Position(s.Node.Pos()).String(), "/")+1:]+" "+s.Text))
+				pos := ref.Fset.Position(s.Node.Pos()).String()
+				probs = append(probs, fmt.Sprintf("statement of %s.%s without counterpart: `%.80s`", refPkg, rn, pos[strings.LastIndex(pos, "/")+1:]+" "+s.Text))
 			}
 		}
-		c.check(len(probs) == 0, "near-port/"+fn, mf, "equal to fmt's up to the limit guards and the tabled difference ("+tab.why+")", fn+" diverges from the fmt function it ports beyond the tabled differences: "+strings.Join(probs, "; "))
+		why := "equal to " + refPkg + "'s"
+		if tab.why != "" {
+			why += " up to the port's guards and the tabled difference (" + tab.why + ")"
+		}
+		c.check(len(probs) == 0, "near-port/"+fn, mf, why, fn+" diverges from the "+refPkg+" function it ports beyond the tabled differences: "+strings.Join(probs, "; "))
 	}
 }
 
